@@ -187,7 +187,8 @@ def _group_rss_gb(pgid):
 
 def write_evidence(prop, data):
     os.makedirs(os.path.join(ROOT, "evidence"), exist_ok=True)
-    p = os.path.join(ROOT, "evidence", f"{prop}.json")
+    # runs against a copy of the repository (seeded-change testing) must not overwrite the real evidence
+    p = os.path.join(ROOT, "evidence", f"{prop}.json" if REPO == "/repo" else f"{prop}.seedrun.json")
     tmp = p + ".tmp"
     with open(tmp, "w") as f:
         json.dump(data, f, indent=1, sort_keys=False)
